@@ -1,0 +1,105 @@
+//! Verification hook (cargo feature `verif`): plain-text dump of the shared
+//! packed parse forest. Read only.
+use std::collections::HashMap;
+use std::fmt::Write;
+use std::rc::Rc;
+
+use super::{Forest, Parent, SPPFTree};
+use crate::input::Input;
+
+struct Dumper<'i, I: Input + ?Sized, P, TK: Copy> {
+    nodes: HashMap<*const SPPFTree<'i, I, P, TK>, usize>,
+    parents: HashMap<*const Parent<'i, I, P, TK>, usize>,
+    out: String,
+}
+
+impl<'i, I, P, TK> Dumper<'i, I, P, TK>
+where
+    I: Input + ?Sized,
+    P: Copy + Into<usize>,
+    TK: Copy + Into<usize>,
+{
+    fn node(&mut self, n: &Rc<SPPFTree<'i, I, P, TK>>) -> usize {
+        let key = Rc::as_ptr(n);
+        if let Some(id) = self.nodes.get(&key) {
+            return *id;
+        }
+        let id = self.nodes.len();
+        self.nodes.insert(key, id);
+        match &**n {
+            SPPFTree::Term { token, data } => {
+                writeln!(
+                    self.out,
+                    "NODE {id} T {} {} {}",
+                    token.kind.into(),
+                    data.span.start.pos,
+                    data.span.end.pos
+                )
+                .unwrap();
+            }
+            SPPFTree::NonTerm {
+                prod,
+                data,
+                children,
+            } => {
+                let ids: Vec<usize> = children.borrow().iter().map(|p| self.parent(p)).collect();
+                write!(
+                    self.out,
+                    "NODE {id} N {} {} {}",
+                    (*prod).into(),
+                    data.span.start.pos,
+                    data.span.end.pos
+                )
+                .unwrap();
+                for i in ids {
+                    write!(self.out, " {i}").unwrap();
+                }
+                writeln!(self.out).unwrap();
+            }
+            SPPFTree::Empty => writeln!(self.out, "NODE {id} E").unwrap(),
+        }
+        id
+    }
+
+    fn parent(&mut self, p: &Rc<Parent<'i, I, P, TK>>) -> usize {
+        let key = Rc::as_ptr(p);
+        if let Some(id) = self.parents.get(&key) {
+            return *id;
+        }
+        let id = self.parents.len();
+        self.parents.insert(key, id);
+        let ids: Vec<usize> = p.possibilities.borrow().iter().map(|n| self.node(n)).collect();
+        write!(self.out, "PARENT {id}").unwrap();
+        for i in ids {
+            write!(self.out, " {i}").unwrap();
+        }
+        writeln!(self.out).unwrap();
+        id
+    }
+}
+
+impl<'i, I, P, TK> Forest<'i, I, P, TK>
+where
+    I: Input + ?Sized,
+    P: Copy + Into<usize>,
+    TK: Copy + Into<usize>,
+{
+    /// Lines `NODE id T kind start end` / `NODE id N prod start end parent-ids…` /
+    /// `NODE id E`, `PARENT id node-ids…` (definitions before uses are not
+    /// guaranteed: children are written before the node that refers to them),
+    /// and finally `ROOTS node-ids…`.
+    pub fn verif_dump(&self) -> String {
+        let mut d = Dumper {
+            nodes: HashMap::new(),
+            parents: HashMap::new(),
+            out: String::new(),
+        };
+        let roots: Vec<usize> = self.results.iter().map(|n| d.node(n)).collect();
+        write!(d.out, "ROOTS").unwrap();
+        for r in roots {
+            write!(d.out, " {r}").unwrap();
+        }
+        writeln!(d.out).unwrap();
+        d.out
+    }
+}
